@@ -24,6 +24,9 @@ var plans = map[string]*Plan{}
 func init() {
 	plans["C05"] = &Plan{
 		Items: []Item{{Plugin: "privileges"}, {Func: "hotline.(*ClientConn).Authorize"}, {Func: "hotline.(*AccessBitmap).IsSet"},
+			// the kind (file / folder) that selects the privilege is the kind of the addressed item
+			{Plugin: "handler-contract", Func: "mobius.HandleMoveFile", Kinds: []string{"site"}},
+			{Plugin: "handler-contract", Func: "mobius.HandleDeleteFile", Kinds: []string{"site"}},
 			// the upload-folder / drop-box rules look at the path's declared last item: the decoded path
 			// must have exactly the declared number of items
 			{Func: "hotline.(*FilePath).Write"}, {Func: "hotline.(*FilePathItem).Write"}},
@@ -287,8 +290,11 @@ func init() {
 			{Plugin: "handler-contract", Func: "mobius.HandleUploadFolder", Kinds: []string{"site"}},
 			{Plugin: "sites", Func: "hotline.receiveFile", Kinds: siteKinds},
 			{Plugin: "sites", Func: "hotline.(*folderUpload).FormattedPath", Kinds: []string{"site"}},
-		}, fnItems(nil, "hotline.CalcItemCount$1", "hotline.(*FileHeader).Read", "hotline.NewFileHeader", "hotline.EncodeFilePath", "hotline.(*FileResumeData).UnmarshalBinary", "hotline.(*FileTransfer).ItemCount")...),
+		}, fnItems(nil, "hotline.CalcItemCount$1", "hotline.(*FileHeader).Read", "hotline.NewFileHeader", "hotline.EncodeFilePath", "hotline.(*FileResumeData).UnmarshalBinary", "hotline.(*FileTransfer).ItemCount",
+			// the per-file size prefix of a folder download counts the header that is then sent
+			"hotline.(*flattenedFileObject).TransferSize", "hotline.(*flattenedFileObject).Read", "hotline.(*FlatFileInformationFork).Read")...),
 		Decided: []string{
+			"TransferSize(k), the size prefix of every file of a folder download: data + resource + the length of the header as flattenedFileObject.Read emits it (info fork with name and comment) - k, mod 2^32, computed on a copy",
 			"both walk callbacks: an entry is counted / gets an item header exactly when the walk reported no error for it and its name does not start with a dot (the download additionally skips the first visited entry, the count subtracts one); neither callback prunes the walk or fails unless the walk or the environment did",
 			"folder download, per entry: header first (FileHeader cursor contract), then on a send or resume choice the size prefix TransferSize(offset), the flattened header, the data fork positioned at the offset and copied to its end; a next-file choice sends nothing more",
 			"folder upload: partial files are opened with O_APPEND and without O_TRUNC; a name becomes final only after receiveFile returned nil; the action sent follows what is on disk (complete: next, partial: resume, absent: send); the resume offset sent is the partial file's size; folders are created only when missing",
@@ -354,8 +360,11 @@ func init() {
 	plans["C16"] = &Plan{
 		Items: []Item{{Plugin: "accesstables"}, {Func: "hotline.(*AccessBitmap).IsSet"}, {Func: "hotline.(*AccessBitmap).Set"}, {Func: "hotline.(*ClientConn).Authorize"},
 			{Plugin: "sites", Func: "mobius.NewYAMLAccountManager", Kinds: []string{"site", "inv-step", "inv-init"}},
-			{Func: "hotline.NewAccount"}},
+			{Func: "hotline.NewAccount"},
+			// an edit stores (in the table and, marshalled, on disk) exactly the bitmap it was given
+			{Func: "mobius.(*YAMLAccountManager).Update"}, {Func: "mobius.(*YAMLAccountManager).Create"}},
 		Decided: []string{
+			"YAMLAccountManager.Update / Create: on success the table entry under the (new) login carries the given access bitmap unchanged -- all 64 bits -- and it is that account which is marshalled and written atomically",
 			"the account loader (including the migration of legacy-format files) never sets a privilege bit itself: what a file grants is what UnmarshalYAML decoded",
 			"IsSet(i) is bit i counted from the most significant bit of byte 0; Set(i) sets exactly that bit (all 64 indices, all byte values)",
 			"MarshalYAML: each of the 40 named fields equals the bit of its privilege number (spec/access_names.spec); no field without row, no row without field",
